@@ -104,6 +104,9 @@ func main() {
 		defer done()
 		for i := 0; i < *n; i++ {
 			loadCase(i+1, *seed*1000003+int64(i), enc)
+			if i%4 == 0 {
+				loadEmptyCase(i+1, *seed*1000003+int64(i), enc)
+			}
 		}
 	case "race":
 		raceScratch = *scratch
